@@ -96,7 +96,7 @@ func hAlias() {
 				seq = t.Range(key, key)
 			}
 			vpAssert(vpEqBytes(buf, before), "C13 the call changed the caller's key bytes or the spare capacity behind them")
-			if kind != 15 && !reuse {
+			if !reuse && (kind != 15 || op == 3) {
 				for j := range buf {
 					buf[j] = vpU8()
 				}
